@@ -294,7 +294,8 @@ pub fn install_silent_hook() {
                 "<non-string panic payload>".to_string()
             };
             let (file, line) = info.location().map(|l| (l.file().to_string(), l.line())).unwrap_or_default();
-            LAST_PANIC.with(|p| *p.borrow_mut() = Some(PanicInfo { message, file, line }));
+            // try_with: the codec may be called from a thread-local destructor after this slot is gone
+            let _ = LAST_PANIC.try_with(|p| *p.borrow_mut() = Some(PanicInfo { message, file, line }));
         }));
     });
 }
@@ -310,12 +311,12 @@ pub enum Caught<T> {
 /// Run `f`, catching unwinding panics. Monitor payloads (non-string) are handed back.
 pub fn guard<T>(f: impl FnOnce() -> T) -> Caught<T> {
     install_silent_hook();
-    LAST_PANIC.with(|p| *p.borrow_mut() = None);
+    let _ = LAST_PANIC.try_with(|p| *p.borrow_mut() = None);
     match catch_unwind(AssertUnwindSafe(f)) {
         Ok(v) => Caught::Ok(v),
         Err(payload) => {
             if payload.is::<&str>() || payload.is::<String>() {
-                let info = LAST_PANIC.with(|p| p.borrow_mut().take()).unwrap_or(PanicInfo { message: "?".into(), file: String::new(), line: 0 });
+                let info = LAST_PANIC.try_with(|p| p.borrow_mut().take()).ok().flatten().unwrap_or(PanicInfo { message: "?".into(), file: String::new(), line: 0 });
                 Caught::Panic(info)
             } else {
                 Caught::Monitor(payload)
